@@ -18,6 +18,17 @@ type sc struct {
 	depth int
 }
 
+type rsc struct {
+	name  string
+	seed  []string
+	depth int
+}
+
+func mkr(x rsc, seed int64) seqx.Config {
+	return seqx.Config{Name: x.name, MaxDepth: x.depth, Seed: seed, Workers: 8,
+		New: func() (seqx.Sys, error) { return newRsys(x.seed) }}
+}
+
 func main() {
 	r := vk.New("C06", "model_checking")
 	q := r.Quick()
@@ -41,6 +52,21 @@ func main() {
 			fmt.Fprintln(os.Stderr, err)
 			os.Exit(2)
 		}
+		for _, x := range []rsc{{"R1 two nodes, writes / deliveries / restarts from empty", nil, 6}, {"R2 two nodes, node 2 holds a key of its own", []string{"set 2 c"}, 6}} {
+			if x.name == v.Scenario {
+				if err := seqx.Replay(mkr(x, r.Seed), v.Trace); err != nil {
+					var vv *vk.Violation
+					if errors.As(err, &vv) {
+						vv.Trace, vv.Scenario = v.Trace, v.Scenario
+						r.Report(vv)
+					} else {
+						r.HarnessError("replay: %v", err)
+					}
+				} else {
+					fmt.Println("replay: no violation reproduced")
+				}
+			}
+		}
 		for _, x := range scs {
 			if x.name == v.Scenario {
 				if err := seqx.Replay(mk(x), v.Trace); err != nil {
@@ -58,12 +84,22 @@ func main() {
 		}
 		r.Finish()
 	}
+	rscs := []rsc{
+		{"R1 two nodes, writes / deliveries / restarts from empty", nil, d(4, 5)},
+		{"R2 two nodes, node 2 holds a key of its own", []string{"set 2 c"}, d(4, 6)},
+	}
+	total := len(scs) + len(rscs)
 	for i, x := range scs {
 		cfg := mk(x)
-		cfg.Deadline = time.Now().Add(r.Left() / time.Duration(len(scs)-i))
+		cfg.Deadline = time.Now().Add(r.Left() / time.Duration(total-i))
 		seqx.Merge(r, seqx.Explore(r, cfg))
 	}
-	r.Set("rule", "BFS over deliveries into the real ingress pipeline of one aspen kv node (kv.Open): each operation of the set delivered 1-2 times, alone or in two-op batches, in any order, interleaved with local writes of the host on a key it leases and with a subscriber attaching mid-traffic; a sentinel transaction is awaited after every step so the asynchronous pipeline and observers have drained; dedup on (stored digests and values, delivery counts)")
+	for i, x := range rscs {
+		cfg := mkr(x, r.Seed)
+		cfg.Deadline = time.Now().Add(r.Left() / time.Duration(len(rscs)-i))
+		seqx.Merge(r, seqx.Explore(r, cfg))
+	}
+	r.Set("rule", "BFS over deliveries into the real ingress pipeline of one aspen kv node (kv.Open): each operation of the set delivered 1-2 times, alone or in two-op batches, in any order, interleaved with local writes of the host on a key it leases and with a subscriber attaching mid-traffic; a sentinel transaction is awaited after every step so the asynchronous pipeline and observers have drained; dedup on (stored digests and values, delivery counts); recovery part: BFS over writes/deletes through either of two real kv nodes (forwarded to the leaseholder), delivery of one node's whole state to the other, and restarts (kv.Close + kv.Open on the same engine = real start-up recovery): no record regresses, a restarted node holds every peer operation at or above its old high-water mark, after a full exchange both nodes hold identical records")
 	r.Assume("in-memory freighter mock transports and memkv; gossip emitters idle (1h interval) so that deliveries are exactly the harness's; versions of host-led operations come from the real version assigner; remote operations carry leaseholders 2 and 3")
 	r.Finish()
 }
